@@ -36,6 +36,7 @@ m = {
     },
     "engines": [
         {"name": "rapidcheck", "path": "harness/main_rc.cpp", "serves_properties": plans.all_props(), "kind_free_text": "property-based testing: rapidcheck generates and shrinks a byte choice stream that a structured decoder turns into matrices, options, tunings and call histories; explicit oracle per property"},
+        {"name": "libFuzzer", "path": "harness/main_fuzz.cpp", "serves_properties": [p for p in plans.all_props() if plans.plan_for(p, "thorough").get("fuzz")], "kind_free_text": "coverage-guided fuzzing (thorough tier): clang -fsanitize=fuzzer,address,undefined with -use_value_profile=1; the same byte stream, decoder and in-target oracle as the rapidcheck engine; crash artifacts are re-confirmed and minimised by the replay binary"},
     ],
     "checks": checks,
     "not_applicable": na,
